@@ -101,6 +101,25 @@ def run(ctx):
                 for b in SLICES:
                     for st in opgen.STORES:
                         add(st, instr, a, b)
+        # two slices of text / of bytes: the same text under different starts (SimpleGarnishData interns equal texts, so both
+        # slices then sit on ONE list address), equal tails of different texts, starts at / beyond the end, ends that differ
+        texts = [[], [97], [97, 98, 99, 100], [98, 99, 100], [97, 98, 99, 100, 101, 102], [97, 97, 97, 97], [233, 97, 0x20AC]]
+        def slices_of(kind, t):
+            body = '(' + kind + ''.join(f' {c}' for c in ([x % 256 for x in t] if kind == 'bl' else t)) + ')'
+            n = len(t)
+            starts = sorted({0, 1, 2, max(0, n - 1), n, n + 2})
+            return [f'(sl {body} (r (i {s_}) (i {e_})))' for s_ in starts for e_ in sorted({s_, s_ + 1, n, n + 3, max(0, s_ - 1)})]
+        for kind in ('cl', 'bl'):
+            sl_all = [x for t in texts for x in slices_of(kind, t)]
+            pairs = [(x, y) for x in sl_all for y in sl_all]
+            if ctx.tier == 'quick':
+                pairs = rnd.sample(pairs, 2500)
+            for x, y in pairs:
+                add(rnd.choice(opgen.STORES), rnd.choice(CMP), x, y)
+            same = [(x, y) for t in texts[2:] for x in slices_of(kind, t) for y in slices_of(kind, t)]
+            for x, y in (same if ctx.tier == 'thorough' else rnd.sample(same, 600)):
+                for st in opgen.STORES:
+                    add(st, rnd.choice(CMP), x, y)
         # every cross-type pair (complete type matrix with all representatives)
         for instr in CMP:
             for lt in opgen.TYPES:
@@ -137,13 +156,45 @@ def run(ctx):
             dis += 1
             ctx.fail('corr', c, impl=ri, model=rm, expect=rm, note='implementation differs from the Lean model (OP comparison suite)')
     ctx.oblige('suite OP.{LessThan,LessThanOrEqual,GreaterThan,GreaterThanOrEqual} (implementation = Lean model)', 'suite', dis == 0 and drv_ok, f'{dis} disagreement(s)')
+    # program level: operands that SHARE one stored value — two slices of the input text / byte list (one address on both data
+    # implementations), the input against itself, a literal against an equal literal (SimpleGarnishData interns them) — through
+    # the real pipeline against the reference evaluator (which compares values, never addresses)
+    if not ctx.replay and drv_ok:
+        import progsuite
+        from gen import proggen
+        rnd2 = random.Random(ctx.seed + 120)
+        pcases, pmeta = [], {}
+        OPS = ['<', '<=', '>', '>=']
+        def sl(a, b): return proggen.binop('<~', proggen.INPUT(), proggen.binop('..', proggen.lit_int(a), proggen.lit_int(b)))
+        rngs = [(0, 3), (1, 4), (0, 0), (2, 2), (1, 1), (0, 5), (3, 9), (5, 6), (4, 4)]
+        inputs = ['(cl 97 98 99 100 101 102)', '(bl 97 98 99 100 101 102)', '(cl 97 97 97 97)', '(cl 233 97 8364 97)']
+        for (a, b) in rngs:
+            for (c_, d_) in rngs:
+                for op in (OPS if ctx.tier == 'thorough' else rnd2.sample(OPS, 2)):
+                    root = proggen.fix_nodes(proggen.binop(op, sl(a, b), sl(c_, d_)))
+                    for inp in inputs:
+                        for st in progsuite.STORES:
+                            pmeta[progsuite.prog_case(pcases, st, proggen.pp(root), inp, '-', proggen.program_term(root))] = 'shared-slices'
+        for op in OPS:
+            for mk in (lambda: proggen.INPUT(), lambda: proggen.lit_text('abc'), lambda: proggen.lit_int(7)):
+                root = proggen.fix_nodes(proggen.binop(op, mk(), mk()))
+                for inp in inputs[:2] + ['(i 3)']:
+                    for st in progsuite.STORES:
+                        pmeta[progsuite.prog_case(pcases, st, proggen.pp(root), inp, '-', proggen.program_term(root))] = 'shared-whole'
+        pimpl = vlib.run_impl(pcases, 'c12prog', per_case_s=5.0)
+        pmodel = vlib.run_model(pcases, 'c12prog')
+        pstats = progsuite.compare_prog(ctx, pcases, pmeta, pimpl, pmodel, want_balance=False)
+        for c in pcases:
+            ctx.distinct.add(('prog', c[2], c[3], c[4]))
+        ctx.evaluations += len(pcases)
+        ctx.suites = dict(ctx.suites or {}, **{'PROG.shared-operands': len(pcases), 'PROG outcomes': pstats})
     ctx.rule = ('OP cases (instr, A, B) for the four comparison instructions: numeric boundary lattice + float lattice + int/float neighbours (all pairs), all pairs of strings of length <= 3 over '
                 '{a, b, é} as char lists (both stores) and byte lists, chars and bytes, random longer multi-byte strings incl. proper prefixes, and the complete cross-type matrix (19 types, all representatives, both stores); '
                 'each checked against an independent Python oracle (exact int/float comparison, lexicographic lists) and against the Lean model; distinct = distinct (instr, A, B).')
-    ctx.suites = {'OP.cmp': len(cases)}
+    ctx.suites = dict(ctx.suites or {}, **{'OP.cmp': len(cases)})
     ctx.distribution = {'result_top': {str(k): v for k, v in kinds.items()}}
     for c, ri, rm, skip in rows[:: max(1, len(rows) // 6)][:6]:
         ctx.sample({'case': c[2:], 'impl': ri, 'model': rm}, cap=80)
     ctx.trusted += ['FloatOps F / FloatOrderLaws F: IEEE-754 order is a hypothesis of the mixed-number theorems (not formalised); sampled against hardware by this suite',
                     'value-level model of comparison.rs (Abs/Ops.lean compareVals/cmpList) tied to the code by the OP suite on both data implementations',
-                    'slice operands are outside the model; the check requires that comparing them never fails and that slices over different kinds of value compare false']
+                    'two slices: the Slice/Slice arm of perform_comparison is modelled as the code has it (compareSlices / cmpListFrom: start offsets only, ties by the full lengths) and compared on both stores; it is not the order of the selected texts (witness in Props/C12), so slices stay outside the order laws; a slice against a non-slice is not modelled (must not fail)']
